@@ -5,6 +5,7 @@ rrulebase methods against (a) a list(rule)-based Python specification, (b) the e
 of the methods (generator path / cache-complete path), (c) the extracted Coq specification."""
 import itertools
 import json
+import re
 import os
 import sys
 import time
@@ -21,7 +22,7 @@ CID = "C12"
 AREA = "rcache"
 VO = ["props/C12.vo", "rcache/PyList.vo", "rcache/RCacheModel.vo", "rcache/RCacheSpec.vo",
       "rcache/RQueryModel.vo", "rcache/RQuerySpec.vo", "rcache/RQueryThm.vo", "rcache/RCacheThm.vo",
-      "rcache/RCacheQuery.vo", "base/Cal.vo", "rr/RRBase.vo", "rr/RRNorm.vo", "rcache/RReplace.vo", "rcache/RReplaceThm.vo"]
+      "rcache/RCacheQuery.vo", "base/Cal.vo", "rr/RRBase.vo", "rr/RRNorm.vo", "rcache/RReplace.vo", "rcache/RGenBase.vo", "gen/RQueryGen.vo", "gen/RCacheGen.vo", "rcache/RQueryGenThm.vo", "rcache/RReplaceThm.vo"]
 
 MODES = ["uncached", "uncached_mid", "cached_fresh", "cached_mid", "cached_shared", "cached_complete"]
 
@@ -534,6 +535,17 @@ def replay(path):
     return 0
 
 
+def translator_status(build_log):
+    """harness/gen_rcache.py (run by common.regenerate on every check) regenerates coq/gen/RQueryGen.v and
+    coq/gen/RCacheGen.v from /repo's source; when it aborts the files are poisoned and the C11_gen_* /
+    C12_gen_* obligations (and with them the whole props file) stop compiling"""
+    m = re.search(r"TRANSLATE-ERROR: ([^\n]*)", build_log or "")
+    failed = "GENERATOR FAILED: gen_rcache.py" in (build_log or "") or (
+        m is not None and "gen_rcache" in (build_log or ""))
+    return {"script": "harness/gen_rcache.py", "outputs": ["coq/gen/RQueryGen.v", "coq/gen/RCacheGen.v"],
+            "status": "aborted" if failed else "ok", "message": m.group(1) if (m and failed) else None}
+
+
 def main():
     argv = sys.argv[1:]
     if "--replay" in argv:
@@ -542,10 +554,12 @@ def main():
     t0 = time.time()
     verdict = C.Verdict(CID, {"replace_nth": RP.matcher_replace_nth})
     build_err = None
+    build_log = ""
     try:
-        C.ensure_built([AREA], VO)
+        _ok, build_log = C.ensure_built([AREA], VO)
     except C.BuildError as ex:
         build_err = ex
+    translator = translator_status(build_log)
     if build_err is not None:
         props = {"obligations": 1, "discharged": 0, "theorems": [], "assumptions": {},
                  "cmd": "coqc props/C12.v", "log": build_err.log, "ok": False}
@@ -611,7 +625,10 @@ def main():
                            "log_tail": (build_err.log if build_err else "")[-2000:]}, concrete=False)
 
     if not props["ok"] and not any(c for (_p, c) in verdict.violations):
-        verdict.violation({"kind": "broken proof obligation", "theorem_file": "coq/props/C12.v",
+        verdict.violation({"kind": ("translator abort (harness/gen_rcache.py: %s): the regenerated model no longer "
+                                    "exists, gen obligations broken" % translator["message"])
+                           if translator["status"] == "aborted" else "broken proof obligation",
+                           "translator": translator, "theorem_file": "coq/props/C12.v",
                            "theorems": props["theorems"], "discharged": props["discharged"],
                            "input": None, "log_tail": props["log"][-3000:]}, concrete=False)
 
@@ -655,6 +672,10 @@ def main():
                                      "DST zones (aware rules use fixed-offset zones), non-int / non-slice subscripts"],
         "partial_theorems": [t for t in props["theorems"] if "partial" in t],
         "known_findings_hit": verdict.known_hits,
+        "translator": translator,
+        "model_tie": "query methods / _iter_cached table / _invalidate_cache / __init__ regenerated from /repo's AST "
+                     "by harness/gen_rcache.py on this run and proved equal to the hand-written model (C1x_gen_* "
+                     "theorems); plus the differential correspondence below",
     }
     C.write_evidence(CID, tier, t0, props, cov,
                      ["CPython list indexing/slicing and itertools.islice are modelled in coq/rcache/PyList.v "
